@@ -1071,7 +1071,8 @@ func c08r3(c *core.Ctx) {
 		for _, s := range c.Eff.Stores(f) {
 			if len(s.Via) == 0 && s.Path.Has("observerManager.observers") && s.Kind == core.StoreElem {
 				if as, ok := s.Node.(*ast.AssignStmt); ok && len(as.Rhs) == 1 {
-					if call, ok := ast.Unparen(as.Rhs[0]).(*ast.CallExpr); ok && m.IsBuiltin(call, "append") {
+					// (the append may be written as a method of the list type: list.add(o) for append(list, o))
+					if appendOf(m, as.Rhs[0]) != nil {
 						reg = f
 					}
 				}
